@@ -357,6 +357,7 @@ pub fn run(prop: &dyn Prop, args: &RunArgs) -> i32 {
             // instead of three times per process.
             let case_seed = cx.rng.0;
             CASE_SEED.store(case_seed, Ordering::Relaxed);
+            ST_SEQ.store(0, Ordering::Relaxed);
             let fresh_thread = args.tier != Tier::Miri && st.name != "corpus" && mix(case_seed, 0x7431) % 4 == 0;
             let res = if fresh_thread {
                 let cxr = &mut cx;
@@ -409,6 +410,8 @@ pub fn run(prop: &dyn Prop, args: &RunArgs) -> i32 {
     // hook counters (only present in hook builds)
     cx.counters.insert("cases run on a fresh thread".to_string(), fresh_cases);
     cx.counters.insert("searches whose query was written into the buffer kept from the search before".to_string(), QUERY_BUFFER_REUSES.load(Ordering::Relaxed));
+    cx.counters.insert("searches preceded by the same text tokenised by another language".to_string(), FOREIGN_QUERIES.load(Ordering::Relaxed));
+    cx.counters.insert("searches preceded by the same text tokenised by a language that normalises it differently".to_string(), FOREIGN_QUERIES_THAT_DIFFER.load(Ordering::Relaxed));
     #[cfg(lucid_suggest_verif)]
     {
         let mut snap = hook_snapshot();
